@@ -14,6 +14,7 @@ import (
 // Lchoose is its logarithm (NaN out of range)".
 //
 //vx:solver z3-new
+//vx:timeout 90000
 //vx:maxdec 100000
 //vx:bound every 0 <= n <= 20 (case split), k any int64 (symbolic)
 //vx:outside n > 20 (exp of lgamma differences: no SMT theory)
